@@ -13,14 +13,16 @@ run(ctx):
      implementation's own neighbour info and weight tables and compared with the implementation's output
      (masks and counts exactly; values bit for bit, or within twice the stated bound).
 
-Stated bounds (u = 2^-53, k = number of slots, sums over the neighbours in range, weights w >= 0 as evaluated in binary64):
-  value:   |impl - S/N| <= B = 4(k+2)u * sum|w x| / sum w + 1e-300   [gauss: + 4 eps * sum|w x|/sum w, eps = max 16u(1+d^2/sigma^2),
-           the evaluation error allowed for exp(-d^2/sigma^2)];  k = 1: exact.
-  stddev:  |impl - sqrt(A T)| <= E, A = V1/(V1^2-V2), T = sum w (x-mean)^2, with
-           e_i = B + u(|x_i|+|mean|+B), E_T = sum w_i e_i (2|x_i-mean| + e_i) + 2(k+3)u sum w_i (|x_i-mean|+e_i)^2,
-           relA = 2 errD/D + 4(k+2)u, errD = 2(k+3)u (V1^2+V2), E_var = A E_T (1+relA) + (relA+4u) A T,
-           E = 2 min(sqrt(E_var), E_var/sqrt(A T)) + 4u sqrt(A T) + 1e-300; cells with errD >= D/4 are ill-conditioned and,
-           like cells with sum w < 1e-290 (subnormal weights) or non-finite neighbour data, are left unconstrained by the oracle.
+Stated bounds (u = 2^-53, eta = 2^-1074): a RUNNING error analysis (class RE) follows the code's operation order
+  (result += w*x; norm += w; result/norm; norm_sqr += w*w; stddev += w*(x-result)^2; sqrt(v1/(v1*v1-v2)*stddev)) in binary64
+  and carries, per intermediate, a bound on its distance from the exact value, with |fl(a op b) - (a op b)| <= u|fl| + eta
+  (eta covers underflow), division by an uncertain denominator, |sqrt a - sqrt b| <= min(sqrt|a-b|, |a-b|/(sqrt a + sqrt b)).
+  It therefore contains the conditioning of V1^2-V2 and of the deviation sum (errors of the mean enter every (x-mean)^2).
+  value:  |impl - S/N| <= B = 4 e(result/norm);  stddev: |impl - sqrt(V1/(V1^2-V2) T)| <= E = 4 e(stddev);  k = 1: exact.
+  gauss: each weight enters with relative uncertainty 16u(1+d^2/sigma^2) (+4 eta), the evaluation error allowed for exp.
+  Sound for any implementation that evaluates the documented formulas in binary64 in this order (then the bound holds with
+  factor 1); cells whose bound is infinite (denominator not separated from 0, overflow) are unconstrained; cells with
+  B > 1e-6*sum|w x|/sum w or E > 1e-6*max(stddev, max|x-mean|) are counted as ill-conditioned (and still checked).
   The Coq comparison accepts 2B / 2E (implementation and binary64 model are both within B / E of the exact value).
 Unconstrained by the property (accepted either way by the oracle, still compared bit for bit with the model):
   a masked neighbour in range whose weight is 0 (code: does not mask); count in {neighbours in range, neighbours with w != 0}
@@ -103,6 +105,74 @@ def gauss_eval(sigma, d):
 
 def gauss_eps(sigma, d):
     return 16 * U * (1.0 + (d * d) / (sigma * sigma))
+
+
+# ------------------------------------------------------------------ running error analysis (oracle side)
+ETA = 2.0 ** -1074          # absolute error of an operation whose result is subnormal (covers underflow)
+SAFE = 1.0 + 2.0 ** -30     # the bounds themselves are computed in floating point
+
+
+class RE:
+    """A binary64 value computed in the code's operation order together with a bound on its distance from the exact
+    (real-number) value of the same expression: |fl(a op b) - (a op b)| <= u |fl(a op b)| + ETA for + - * / sqrt."""
+    __slots__ = ("v", "e")
+
+    def __init__(self, v, e=0.0):
+        self.v, self.e = v, e
+
+    def _fin(self, v, e):
+        if not (math.isfinite(v) and e == e):
+            return RE(v, float("inf"))
+        return RE(v, e * SAFE)
+
+    def add(self, o):
+        v = self.v + o.v
+        return self._fin(v, self.e + o.e + U * abs(v))
+
+    def sub(self, o):
+        v = self.v - o.v
+        return self._fin(v, self.e + o.e + U * abs(v))
+
+    def mul(self, o):
+        v = self.v * o.v
+        return self._fin(v, abs(self.v) * o.e + abs(o.v) * self.e + self.e * o.e + U * abs(v) + ETA)
+
+    def div(self, o):
+        den = abs(o.v) - o.e
+        if not den > 0:
+            return RE(self.v / o.v if o.v != 0 else float("nan"), float("inf"))
+        v = self.v / o.v
+        return self._fin(v, (self.e + (abs(v) * (1 + 4 * U) + ETA) * o.e) / den + U * abs(v) + ETA)
+
+    def sqrt(self):
+        if self.v < 0:
+            return RE(float("nan"), float("inf"))
+        v = math.sqrt(self.v)
+        lo = max(self.v - self.e, 0.0)
+        d = v + math.sqrt(lo)
+        e = min(math.sqrt(self.e), self.e / d if d > 0 else float("inf"))
+        return self._fin(v, e + U * abs(v))
+
+
+def run_mean(pres, weps):
+    """result/norm accumulated as the code does; pres = [(w, x)], weps = relative uncertainty of each weight"""
+    res, nm = RE(0.0), RE(0.0)
+    for (w, x), ew in zip(pres, weps):
+        wt = RE(w, ew * abs(w) + (4 * ETA if ew else 0.0))
+        res = res.add(wt.mul(RE(x)))
+        nm = nm.add(wt)
+    return res.div(nm), nm
+
+
+def run_stddev(pres, weps, mean_re, nm):
+    v2, sd = RE(0.0), RE(0.0)
+    for (w, x), ew in zip(pres, weps):
+        wt = RE(w, ew * abs(w) + (4 * ETA if ew else 0.0))
+        v2 = v2.add(wt.mul(wt))
+        dev = RE(x).sub(mean_re)
+        sd = sd.add(wt.mul(dev.mul(dev)))
+    den = nm.mul(nm).sub(v2)
+    return nm.div(den).mul(sd).sqrt()
 
 
 # ------------------------------------------------------------------ generator
@@ -563,22 +633,32 @@ class Judge:
         contributes = bool(pres) and wsum > 0
         mean = None
         value_ok = True
-        underflow = contributes and wsum < Fraction(1e-290)
-        if underflow:
-            # sum of weights in the subnormal range: the relative error model does not apply, value unconstrained
-            self.stat("cells_underflow")
-            tolv = 1e300
-        if contributes and finite and not underflow:
+        underflow = False
+        B = 0.0
+        mean_re = nm_re = None
+        weps = []
+        if contributes and finite:
             S = sum(Fraction(w) * Fraction(x) for w, x, _, _ in pres)
-            absS = sum(abs(Fraction(w) * Fraction(x)) for w, x, _, _ in pres)
             mean = S / wsum
-            B = 4 * (nslots + 2) * U * float(absS / wsum) + TINY
-            if c["mode"] == "gauss" and k > 1:
-                s = unhex(c["sigmas"][j])
-                B += 4 * max(gauss_eps(s, d) for _, _, _, d in pres) * float(absS / wsum)
-            if k == 1:
-                B = 0.0
-            tolv = 2 * B
+            if k > 1:
+                if c["mode"] == "gauss":
+                    s = unhex(c["sigmas"][j])
+                    weps = [gauss_eps(s, d) for _, _, _, d in pres]
+                else:
+                    weps = [0.0] * len(pres)
+                mean_re, nm_re = run_mean([(w, x) for w, x, _, _ in pres], weps)
+                B = 4 * mean_re.e
+                scale = float(sum(abs(Fraction(w) * Fraction(x)) for w, x, _, _ in pres) / wsum)
+                if not math.isfinite(B):
+                    # e.g. the sum of weights is subnormal: no usable bound, value unconstrained (still compared with the model)
+                    underflow = True
+                    mean = None
+                    self.stat("cells_underflow")
+                    tolv = 1e300
+                else:
+                    if B > 1e-6 * scale + 1e-290:
+                        self.stat("cells_mean_illconditioned")
+                    tolv = 2 * B
         must_mask = any(mm and w > 0 for w, _, mm, _ in pres) and contributes
         may_mask = any(mm for _, _, mm, _ in pres)
         if not contributes:
@@ -643,37 +723,24 @@ class Judge:
                 # the property leaves it undefined (the code yields NaN -> masked, or inf)
                 self.stat("cells_sd_degenerate")
                 tols = float("inf")
-            elif finite and k > 1:
+            elif finite and k > 1 and mean is not None:
                 ws = [Fraction(w) for w, _, _, _ in pres]
                 v1 = sum(ws)
                 v2 = sum(w * w for w in ws)
                 D = v1 * v1 - v2
-                errD = 2 * (nslots + 3) * U * float(v1 * v1 + v2)
-                if D <= 0 or errD >= float(D) / 4 or any(w < 0 for w in ws):
+                sd_re = run_stddev([(w, x) for w, x, _, _ in pres], weps, mean_re, nm_re)
+                E = 4 * sd_re.e
+                if D <= 0 or not math.isfinite(E):
+                    # V1^2 - V2 cancels completely (or underflows) in binary64: no usable bound, stddev unconstrained
                     self.stat("cells_sd_illconditioned")
                     tols = float("inf")
                 else:
-                    A = v1 / D
-                    relA = 2 * errD / float(D) + 4 * (nslots + 2) * U
-                    em = B
-                    T = Fraction(0)
-                    ET = 0.0
-                    for w, x, _, _ in pres:
-                        q = abs(Fraction(x) - mean)
-                        qf = float(q)
-                        e = em + U * (abs(x) + abs(float(mean)) + em)
-                        T += Fraction(w) * q * q
-                        ET += w * (e * (2 * qf + e)) + 2 * (nslots + 3) * U * w * (qf + e) ** 2
-                    var = A * T
-                    Af, varf = float(A), float(var)
-                    Evar = Af * ET * (1 + relA) + relA * varf + 4 * U * varf
-                    E = math.sqrt(Evar) if varf <= 0 else min(math.sqrt(Evar), Evar / math.sqrt(varf))
-                    E = 2 * E + 4 * U * math.sqrt(max(varf, 0.0)) + TINY
-                    if c["mode"] == "gauss":
-                        # the weights themselves are only known up to the evaluation error of exp(-d^2/sigma^2)
-                        s_ = unhex(c["sigmas"][j])
-                        kappa = float((v1 * v1 + v2) / D)
-                        E += 8 * max(gauss_eps(s_, d) for _, _, _, d in pres) * (1 + kappa) * math.sqrt(max(varf, 0.0))
+                    T = sum(Fraction(w) * (Fraction(x) - mean) ** 2 for w, x, _, _ in pres)
+                    var = v1 / D * T
+                    varf = float(var)
+                    spread = max(abs(float(Fraction(x) - mean)) for _, x, _, _ in pres)
+                    if E > 1e-6 * max(math.sqrt(max(varf, 0.0)), spread) + 1e-290:
+                        self.stat("cells_sd_illconditioned")     # checked all the same, with the (large) rigorous bound
                     tols = 2 * E
                     self.stat("cells_sd")
                     if sdm:
